@@ -40,6 +40,8 @@ type Ctx struct {
 	inSpecAssume int
 	usedContracts map[string]bool
 	closureTab map[string]*Closure
+	interior map[string]Loc
+	defOf map[string]*Term
 
 	fnName string
 }
@@ -117,6 +119,12 @@ func (c *Ctx) define(t *Term, prefix string) *Term {
 	}
 	n := c.fresh(prefix, t.Sort)
 	c.defs = append(c.defs, fmt.Sprintf("(assert (= %s %s))", n.Op, renderTerm(t)))
+	if t.Sort == SInt {
+		if c.defOf == nil {
+			c.defOf = map[string]*Term{}
+		}
+		c.defOf[n.Op] = t
+	}
 	return n
 }
 
@@ -453,6 +461,11 @@ func (c *Ctx) theoryAxioms() []string {
 	if c.usesLower {
 		out = append(out, "(assert (forall ((a Str)) (! (= (strLower (strLower a)) (strLower a)) :pattern ((strLower a)))))")
 		out = append(out, "(assert (= (strLower strEmpty) strEmpty))")
+		for _, s := range c.strOrder {
+			if l, ok := c.strLits[strings.ToLower(s)]; ok {
+				out = append(out, fmt.Sprintf("(assert (= (strLower %s) %s))", c.strLits[s].Op, l.Op))
+			}
+		}
 	}
 	return out
 }
